@@ -386,3 +386,5 @@ M('read-skips-a-file', ['C13'], RL, "                    if (read_idx := read_id
 M('read-exhausted-not-closed', ['C13'], RL, "                    read_file.close()\n\n                    self.read_file = read_file = None\n                    self.read_idx  = read_idx", "                    self.read_file = read_file = None\n                    self.read_idx  = read_idx", ['C13.R4'])
 M('refresh-closes-same-file', ['C13'], RL, "                ret   = 2 if len(logfiles) > (read_idx + 1) else 1 if logfile.size > (old_size or 0) else 0\n                close = False\n", "                ret   = 2 if len(logfiles) > (read_idx + 1) else 1 if logfile.size > (old_size or 0) else 0\n", ['C13.R5'])
 M('refresh-newer-or-equal', ['C13'], RL, "            if logfile.timestamp > old_timestamp:\n                ret = 2", "            if logfile.timestamp >= old_timestamp:\n                ret = 2", ['C13.R5'])
+M('seed-C09-raw-ravel-order-K', ['C09'], MQ, "img  = frame.jpg if do_jpg else bytearray(memoryview(frame.image))", "img  = frame.jpg if do_jpg else bytearray(memoryview(frame.image.ravel(order='K')))", ['C09.R3'])
+M('raw-fortran-tobytes', ['C09'], MQ, "img  = frame.jpg if do_jpg else bytearray(memoryview(frame.image))", "img  = frame.jpg if do_jpg else frame.image.tobytes('F')", ['C09.R3'])
